@@ -164,7 +164,9 @@ Section Sim.
           cbn [bind]. rewrite ww_set_tape, output_values_ww.
           destruct (output_values f res ins (set_tape s2 t')) as [s3| | |]; try reflexivity.
           cbn [rmap bind]. apply IH.
-        + cbn [walkX]. destruct prev as [[| | | |t0 st0]|];
+        + cbn [walkX]. destruct prev as [[| |n2 t2 s2| |t0 st0]|];
+            try change (s_vals (ww w s)) with (s_vals s);
+            try destruct (lookup (KVal n2 t2 s2) (s_vals s));
             (refine (eq_trans _ (IH _ _ _)); reflexivity).
         + cbn [walkX]. change (s_last (ww w s)) with (s_last s).
           destruct (s_last s) as [x|]; [destruct (assignable u (v_ty x) t)|];
